@@ -172,6 +172,67 @@ def tw_counting(ops: List[int]) -> bool:
     return nhits >= 2 and any(_DEC[o][1] == 6 for o in ops)
 
 
+def _e2e_counting(ops):
+    """Through the public API: a real Application with StatsMiddleware and the stats sub-application; the stats
+    application's own routes are requests that reach a route, too (a read is counted after its report was built,
+    the reset request is the first request of the new period)."""
+    from clastic import Application
+    from clastic.middleware.stats import StatsMiddleware, create_stats_app
+    import json
+    cur = {}
+
+    def _do(kind):
+        o = _outcomes()[kind]
+        if kind >= 3:
+            raise o
+        return o
+    mw = StatsMiddleware()
+    app = Application([('/a', lambda: _do(cur['kind'])), ('/b', lambda: _do(cur['kind'])), ('/_stats', create_stats_app())], middlewares=[mw])
+    cl = app.get_local_client()
+    model = {}
+    expect_status = [200, 302, 404, 403, 500]
+    for o in ops:
+        rt, kind = _DEC[o]
+        if kind <= 4:
+            cur['kind'] = kind
+            patt = ['/a', '/b'][rt]
+            resp = cl.get(patt)
+            if resp.status_code != expect_status[kind]:
+                return False
+            key = (patt, _KEYS[kind])
+            model[key] = model.get(key, 0) + 1
+            if kind == 2:
+                # a non-breaking error falls through to the catch-all route, which the request reaches as well
+                nk = ('/<_ignored*>', '404')
+                model[nk] = model.get(nk, 0) + 1
+        else:
+            if kind == 5:
+                rep = json.loads(cl.get('/_stats/?format=json').get_data(True))
+            else:
+                rep = json.loads(cl.post('/_stats/reset?format=json').get_data(True))
+            seen = {}
+            for patt, per in rep['route_stats'].items():
+                for status, d in per.items():
+                    seen[(patt, status)] = d['count']
+            if seen != model:
+                return False
+            if kind == 5:
+                model[('/_stats/', '200')] = model.get(('/_stats/', '200'), 0) + 1
+            else:
+                model = {('/_stats/reset', '200'): 1}
+    return True
+
+
+def ob_e2e_counting(o0: int, o1: int, o2: int, o3: int) -> bool:
+    from harness.util import untraced
+    with untraced():
+        return _e2e_counting([o0, o1, o2, o3])
+
+
+def confirm_e2e_counting(o0, o1, o2, o3):
+    return not _e2e_counting([o0, o1, o2, o3])
+
+
 def confirm_counting(ops):
     """Through the public API: a real Application with StatsMiddleware and the stats sub-application."""
     from clastic import Application
